@@ -110,6 +110,19 @@ class Ctx:
     def fn(self, qualname):
         return self.ev.make_function(self.db.function(qualname), None) if "." in qualname else None
 
+    def call_named(self, fv, named, extra_kwargs=None):
+        """Call a (private) helper by the NAMES of its parameters when the function has them (robust against re-ordered or
+        keyword-only parameters); falls back to the recorded positional order otherwise.  `named` is an ordered list of (name, value)."""
+        fi = getattr(fv, "fi", None)
+        kw = dict(extra_kwargs or {})
+        if fi is not None:
+            a = fi.node.args
+            have = {p.arg for p in a.posonlyargs + a.args + a.kwonlyargs}
+            if all(n in have for n, _v in named) and not a.posonlyargs:
+                kw.update({n: v for n, v in named})
+                return self.ev.call(fv, [], kw)
+        return self.ev.call(fv, [v for _n, v in named], kw)
+
     def where(self, qualname):
         try:
             return self.db.function(qualname).where()
